@@ -3,9 +3,9 @@
    Model: Model/Fri.v (hand-written from fri/src, tied to the source by the correspondence run of checks/c15.py). *)
 From Coq Require Import List Arith Bool Lia ZArith.
 From VBase Require Import FieldOps.
-From VModel Require Import Fri.
+From VModel Require Import Merkle Fri FriMerkle.
 From VBase Require Import ZpOps.
-From VProofs Require Import FriIdx FriField FriInterp FriProver FriRoots FriCoset FriComplete ZpLaws.
+From VProofs Require Import FriIdx FriField FriInterp FriProver FriRoots FriCoset FriComplete FriMerkleInst FriFields ZpLaws.
 Import ListNotations.
 Local Open Scope nat_scope.
 
@@ -304,6 +304,102 @@ Print Assumptions C15_apply_drp_coset_relabelled.
 Print Assumptions C15_interpolate_coset.
 Print Assumptions C15_fft_rec_idft.
 Print Assumptions C15_fri_complete.
+
+(* (3') fri_complete with the Merkle externals instantiated by the Merkle model of C10 (Model/Merkle.v through
+   Model/FriMerkle.v: MerkleTree::new / root / prove_batch / verify_batch, positions nat <-> usize) and the Merkle
+   hypotheses DISCHARGED by C10's theorems (mt_new_ok, batch_complete; Proofs/FriMerkleInst.v), for every digest type
+   with a decidable equality, every default digest and every merge function.
+   FINAL PREMISE LIST: the field laws; the root-of-unity family facts (rou(k+1)^2 = rou(k) for k < K, rou(1) = -1,
+   1 + 1 <> 0, 1 <= K); gen_offset <> 0; D_eqb decides equality; draw_total (the public coin's draw yields an element:
+   DefaultRandomCoin gives up after 1000 rejected candidates, which is outside the claim of the property; C19 proves
+   that draw returns the first admissible candidate and never panics, not that one exists); and the parameters:
+   supported folding 2^f, well-formed schedule (k f < a, b <= a - k f), a <= K, a <= 62, 2^(a-b) coefficients,
+   a non-empty list of at most 255 in-range positions. *)
+Theorem C15_fri_complete_merkle : forall (F : Type) (O : FOps F), FLaws O ->
+  forall (rou : nat -> F) (K : nat), 1 <= K ->
+  (forall k, k < K -> fmul O (rou (S k)) (rou (S k)) = rou k) -> rou 1 = fneg O (fone O) ->
+  fadd O (fone O) (fone O) <> fzero O ->
+  forall (gen_offset : F), gen_offset <> fzero O ->
+  forall (dbg : bool) (D : Type) (D_eqb : D -> D -> bool), (forall a b, D_eqb a b = true <-> a = b) ->
+  forall (d0 : D) (merge : D -> D -> D) (hash_elements : list F -> D)
+         (CS : Type) (cs_reseed : CS -> D -> CS) (cs_draw : CS -> CS * draw_res F),
+  (forall c, exists c' a, cs_draw c = (c', DrawOk a)) ->
+  forall f b remmax, 1 <= f -> supported_folding (2 ^ f) = true ->
+  forall a k P positions coin0,
+  num_fri_layers (mkOpts (2 ^ b) (2 ^ f) remmax) (2 ^ a) = Some k -> k * f < a -> b <= a - k * f -> a <= K -> a <= 62 ->
+  length P = 2 ^ (a - b) ->
+  positions <> [] /\ length positions <= 255 /\ (forall p, In p positions -> p < 2 ^ a) ->
+  let evals := coset_evals O P gen_offset (rou a) (2 ^ a) in
+  exists cs proof p',
+    prove O rou K gen_offset D hash_elements (mtree D) (list (list D))
+          (cm_new D d0 merge) (cm_root D d0) (cm_prove_batch D d0) CS cs_reseed cs_draw
+          (mkOpts (2 ^ b) (2 ^ f) remmax) coin0 evals positions = Ok (cs, proof, p') /\
+    run_verifier O rou K gen_offset dbg D D_eqb hash_elements (list (list D)) (cm_verify_batch D D_eqb merge)
+          CS cs_reseed cs_draw true
+          (mkOpts (2 ^ b) (2 ^ f) remmax) coin0 proof cs (2 ^ (a - b) - 1) (2 ^ a)
+          (map (fun p => nth p evals (fzero O)) positions) positions
+    = RunVerdict (Ok tt).
+Proof.
+  intros F O L rou K HK Hsq H1 H2 gen_offset Hoff dbg D D_eqb Hspec d0 merge hash_elements CS cs_reseed cs_draw Hdraw
+         f b remmax Hf Hs.
+  exact (fri_complete_merkle D D_eqb Hspec d0 merge O L rou K HK Hsq H1 H2 gen_offset Hoff dbg hash_elements
+           CS cs_reseed cs_draw Hdraw f b remmax Hf Hs).
+Qed.
+Print Assumptions C15_fri_complete_merkle.
+
+(* (3'') ... and with the field instantiated: the prime field F64 (sigma type over canonical residues, Proofs/ZpLaws.v)
+   with the crate's constants: roots rouF64(k) = TWO_ADIC_ROOT_OF_UNITY^(2^(TWO_ADICITY - k)), TWO_ADICITY = 32,
+   domain offset GENERATOR — the root-family facts and offset <> 0 are checked by computation (Proofs/FriFields.v).
+   FINAL PREMISE LIST: D_eqb decides equality; draw_total; the schedule/parameter conditions. *)
+Theorem C15_fri_complete_f64 : forall (dbg : bool) (D : Type) (D_eqb : D -> D -> bool),
+  (forall a b, D_eqb a b = true <-> a = b) ->
+  forall (d0 : D) (merge : D -> D -> D) (CS : Type) (cs_reseed : CS -> D -> CS)
+         (hash_elements : list (Zp P64) -> D) (cs_draw : CS -> CS * draw_res (Zp P64)),
+  (forall c, exists c' a, cs_draw c = (c', DrawOk a)) ->
+  forall f b remmax, 1 <= f -> supported_folding (2 ^ f) = true ->
+  forall a k P positions coin0,
+  num_fri_layers (mkOpts (2 ^ b) (2 ^ f) remmax) (2 ^ a) = Some k -> k * f < a -> b <= a - k * f -> a <= 32 -> a <= 62 ->
+  length P = 2 ^ (a - b) ->
+  positions <> [] /\ length positions <= 255 /\ (forall p, In p positions -> p < 2 ^ a) ->
+  let evals := coset_evals F64_ops P genF64 (rouF64 a) (2 ^ a) in
+  exists cs proof p',
+    prove F64_ops rouF64 32 genF64 D hash_elements (mtree D) (list (list D))
+          (cm_new D d0 merge) (cm_root D d0) (cm_prove_batch D d0) CS cs_reseed cs_draw
+          (mkOpts (2 ^ b) (2 ^ f) remmax) coin0 evals positions = Ok (cs, proof, p') /\
+    run_verifier F64_ops rouF64 32 genF64 dbg D D_eqb hash_elements (list (list D)) (cm_verify_batch D D_eqb merge)
+          CS cs_reseed cs_draw true
+          (mkOpts (2 ^ b) (2 ^ f) remmax) coin0 proof cs (2 ^ (a - b) - 1) (2 ^ a)
+          (map (fun p => nth p evals (fzero F64_ops)) positions) positions
+    = RunVerdict (Ok tt).
+Proof. exact fri_complete_f64. Qed.
+Print Assumptions C15_fri_complete_f64.
+
+(* (3'') ... and with the field instantiated: the prime field F128 (sigma type over canonical residues, Proofs/ZpLaws.v)
+   with the crate's constants: roots rouF128(k) = TWO_ADIC_ROOT_OF_UNITY^(2^(TWO_ADICITY - k)), TWO_ADICITY = 40,
+   domain offset GENERATOR — the root-family facts and offset <> 0 are checked by computation (Proofs/FriFields.v).
+   FINAL PREMISE LIST: D_eqb decides equality; draw_total; the schedule/parameter conditions. *)
+Theorem C15_fri_complete_f128 : forall (dbg : bool) (D : Type) (D_eqb : D -> D -> bool),
+  (forall a b, D_eqb a b = true <-> a = b) ->
+  forall (d0 : D) (merge : D -> D -> D) (CS : Type) (cs_reseed : CS -> D -> CS)
+         (hash_elements : list (Zp P128) -> D) (cs_draw : CS -> CS * draw_res (Zp P128)),
+  (forall c, exists c' a, cs_draw c = (c', DrawOk a)) ->
+  forall f b remmax, 1 <= f -> supported_folding (2 ^ f) = true ->
+  forall a k P positions coin0,
+  num_fri_layers (mkOpts (2 ^ b) (2 ^ f) remmax) (2 ^ a) = Some k -> k * f < a -> b <= a - k * f -> a <= 40 -> a <= 62 ->
+  length P = 2 ^ (a - b) ->
+  positions <> [] /\ length positions <= 255 /\ (forall p, In p positions -> p < 2 ^ a) ->
+  let evals := coset_evals F128_ops P genF128 (rouF128 a) (2 ^ a) in
+  exists cs proof p',
+    prove F128_ops rouF128 40 genF128 D hash_elements (mtree D) (list (list D))
+          (cm_new D d0 merge) (cm_root D d0) (cm_prove_batch D d0) CS cs_reseed cs_draw
+          (mkOpts (2 ^ b) (2 ^ f) remmax) coin0 evals positions = Ok (cs, proof, p') /\
+    run_verifier F128_ops rouF128 40 genF128 dbg D D_eqb hash_elements (list (list D)) (cm_verify_batch D D_eqb merge)
+          CS cs_reseed cs_draw true
+          (mkOpts (2 ^ b) (2 ^ f) remmax) coin0 proof cs (2 ^ (a - b) - 1) (2 ^ a)
+          (map (fun p => nth p evals (fzero F128_ops)) positions) positions
+    = RunVerdict (Ok tt).
+Proof. exact fri_complete_f128. Qed.
+Print Assumptions C15_fri_complete_f128.
 
 (* non-vacuity of the root-family hypotheses: f64, K = 2, roots 1, -1, 2^48 (2^96 = -1 in the Goldilocks field) *)
 Example C15_root_family_satisfiable : exists rou : nat -> Zp P64,
